@@ -212,7 +212,67 @@ def r3_normalisation_agreement(ctx):
         ctx.ob('C20.R3', 'guard-reversed', bool(rev), pat.loc(), 'matchit_pattern() walks the guard in reverse: %s' % bool(rev), nontrivial=False)
 
 
+def r4_identifier_oracle(ctx):
+    ctx.rule('C20.R4', 'P7/P1: a `{parameter}` name becomes a Rust identifier in the generated code, so what is a valid name is decided by the Rust '
+             'grammar itself: every construction of InvalidDomainConstraint::InvalidParameterName in validate() (private helpers inlined) is governed by '
+             'the outcome of syn::parse_str::<syn::Ident>, the parser the code generator itself uses. A hand-written scanner is not checked against '
+             'keywords (`type`, `fn`, `self`, ..) or `_`.')
+    from ..inline import inlined, closures_of
+    from ..govern import controlling_switches
+    v = ctx.need('C20.R4', 'validate', ctx.fb.body(CR, VALIDATE))
+    if v is None:
+        return
+    v = inlined(ctx.fb, v)
+    n = 0
+    for x in [v] + closures_of(ctx.fb, v):
+        defs = Defs(x)
+        for bb, j, st in x.all_assigns():
+            rv = st['rv']
+            if rv['k'] != 'agg' or rv.get('var') != 'InvalidParameterName' or not strip_generics(rv.get('adt', '')).endswith('InvalidDomainConstraint'):
+                continue
+            n += 1
+            oracle = False
+            for sb, w in controlling_switches(x, bb):
+                l = w['src']['l'] if 'src' in w else (op_place(w['d'])['l'] if op_place(w.get('d')) else None)
+                if l is None:
+                    continue
+                sl, _ = backward_slice(x, l, defs)
+                for c, _, nd in slice_calls(sl):
+                    if c == 'syn::parse_str' and any('Ident' in g for g in nd.get('ga', [])):
+                        oracle = True
+            ctx.ob('C20.R4', 'parameter-names-parsed-by-syn', oracle, x.loc(bb, st),
+                   'InvalidParameterName is reported on the outcome of syn::parse_str::<Ident>: %s' % oracle)
+    ctx.floor('C20.R4', 'constructions of InvalidParameterName', n, 1)
+
+
+def r5_one_numbering(ctx):
+    ctx.rule('C20.R5', 'P9 sibling agreement: the generated router refers to a domain by a number in three places (the fields / methods `domain_<i>`, the '
+             'dispatch arms, and the `router.insert(pattern, i)` statements of domain_router()). Every one of them numbers the domains with '
+             '`enumerate()` applied directly to an iteration of the same BTreeMap<DomainGuard, _> (keys / values / iter): no partition, sort, '
+             'filter, chain or rev in between — a reordering on one side registers a pattern under another domain\'s id.')
+    DIRECT = {'keys', 'values', 'iter', 'into_iter', 'clone', 'deref', 'as_ref', 'borrow', 'into_keys', 'into_values'}
+    n = 0
+    for b in ctx.fb.bodies(CR):
+        if b.is_promoted or 'codegen::router' not in b.nid:
+            continue
+        defs = Defs(b)
+        for bb, t in b.calls():
+            if callee(t) != 'core::iter::traits::iterator::Iterator::enumerate':
+                continue
+            sl, _ = backward_slice(b, op_place(t['args'][0])['l'], defs)
+            calls = [(c, nd) for c, _, nd in slice_calls(sl) if c]
+            if not any('BTreeMap<' in (nd['aty'][0] if nd['aty'] else '') and 'DomainGuard' in nd['aty'][0] for c, nd in calls):
+                continue
+            n += 1
+            other = sorted({c.split('::')[-2] + '::' + c.split('::')[-1] for c, nd in calls if c.split('::')[-1] not in DIRECT})
+            ctx.ob('C20.R5', 'numbered-in-map-order|%s' % b.nid.replace('pavexc::compiler::codegen::', ''), not other, b.loc(bb, t),
+                   'enumerate() is applied to the map iteration %s' % ('directly' if not other else 'after %s: the numbers no longer follow the order of the map' % other))
+    ctx.floor('C20.R5', 'places that number the domains', n, 2)
+
+
 def check(ctx):
     r1_validated_constructor(ctx)
     r2_one_pattern_source(ctx)
     r3_normalisation_agreement(ctx)
+    r4_identifier_oracle(ctx)
+    r5_one_numbering(ctx)
